@@ -105,7 +105,7 @@ class World:
         self.n += 1
         if kind == 'string':
             if self.replay:
-                text = B.render(B.raw(builder))
+                text = B.doc_text(B.raw(builder))
                 B.Ctx.docs.append(text)
                 return text
             h = 'doc%d' % self.n
@@ -116,7 +116,7 @@ class World:
             if self.replay:
                 path = os.path.join(self._tmpdir(), name)
                 os.makedirs(os.path.dirname(path), exist_ok=True)
-                text = B.render(B.raw(builder))
+                text = B.doc_text(B.raw(builder))
                 B.Ctx.docs.append(text)
                 with open(path, 'w', encoding='utf-8') as f:
                     f.write(text)
@@ -127,7 +127,7 @@ class World:
         if kind == 's3':
             key = name or 'prefix/k%d.mos.xml' % self.n
             if self.replay:
-                text = B.render(B.raw(builder))
+                text = B.doc_text(B.raw(builder))
                 B.Ctx.docs.append(text)
                 self.objects[key] = text
             else:
